@@ -14,6 +14,7 @@ import PgProofs.EvoAlignU
 import PgProofs.EvoPure
 import PgProofs.EvoPermP
 import PgProofs.EvoNumP
+import PgProofs.EvoPropP
 import Mathlib.Tactic.NormNum
 import Mathlib.Data.List.Perm.Subperm
 namespace Pg.C14
@@ -119,6 +120,19 @@ theorem C14_selector_Sample (n : NSpec) : SelectorLaw (selSample n) (fun len => 
     obtain ⟨hl, _, hu⟩ := nextChoices_spec h1
     obtain ⟨hm, hlen, rfl⟩ := pickAll_spec _ _ _ _ _ h2
     exact ⟨hm, by simp [hlen, hl], hu⟩
+
+/-- `Proportional`: `_partition` hands out exactly the documented number of items, whatever the
+weights (tiny, zero, equal …): the rounding adjustment never over- or under-shoots. -/
+theorem C14_partition_count (ws : List Q) (n : Nat) (a : List Nat) (h : partition ws n = some a) :
+    a.sum = n ∧ a.length = ws.length := partition_spec ws n a h
+
+theorem C14_selector_Proportional (n : NSpec) (wf : Nat → List Q) (hwf : ∀ m, (wf m).length = m) :
+    SelectorLaw (selProportional n wf) (fun len => numOutput n len) := by
+  intro pop st out st' h
+  obtain ⟨h1, h2, rfl⟩ := selProportional_spec n wf hwf pop st out st' h
+  exact ⟨h1, h2, rfl⟩
+
+example : ∀ m, (cycleWeights [1/10, 1, 1, 1] m).length = m := length_cycleWeights _
 
 theorem C14_submultiset_First (n : NSpec) : SubMultiset (selFirst n) := by
   intro pop st out st' h
